@@ -11,7 +11,8 @@ if [ "$1" = "-s" ]; then
   sed -i "$2" "$tmp/repo/$3" || exit 3
   if cmp -s "$tmp/repo/$3" "/repo/$3"; then echo "sed changed nothing"; exit 3; fi
 else
-  (cd "$tmp/repo" && patch -p1 -s < "$1") || { echo "patch failed"; exit 3; }
+  pf=$(readlink -f "$1")
+  (cd "$tmp/repo" && patch -p1 -s < "$pf") || { echo "patch failed"; exit 3; }
 fi
 (cd "$tmp/repo" && go build ./... ) || { echo "MUTANT DOES NOT COMPILE"; exit 3; }
 bin/j5check -prop "$prop" -tier quick -repo "$tmp/repo" -out "$tmp/ev.json" | sed "s#$tmp/repo/##g" | grep -v '^KNOWN-FINDING' | tail -${TAIL:-8}
